@@ -259,7 +259,8 @@ pub fn codegen_tree(tree: Arc<ParseTree>, opts: &Opts) -> Result<Gen, PanicInfo>
     verif_hooks::set_pass_observer(Box::new(move |info| {
         let mut s = st.borrow_mut();
         s.2 = info.pass_idx + 1;
-        if info.pass_idx == 0 {
+        // pass 0 runs without a segment (no labels yet): the first pass that places code is pass 1
+        if info.pass_idx == 1 {
             s.3 = info.symbols.clone();
         }
         s.0.push(info.digest);
